@@ -31,7 +31,7 @@ func registerMetaDriver(ctl *Ctl) string {
 				switch d.act {
 				case actDead, actBefore:
 					return 0, injErr(d, "meta", op, key)
-				case actMid, actLate:
+				case actMid, actLate, actCommit:
 					// the statement goes through; for a crash everything after it is dead
 					ctl.after(d)
 				}
